@@ -226,10 +226,11 @@ def rand_op(rnd):
 
 
 class PostFail(Exception):
-    def __init__(self, kind, what):
+    def __init__(self, kind, what, mechanism=None):
         super().__init__(what)
         self.kind = kind
         self.what = what
+        self.mechanism = mechanism
 
 
 def pick_symbol(t, k):
@@ -407,10 +408,21 @@ def do_op(w, op):
             if cnt == 0 and dedup_ok(s, t, pre_names):
                 w.stats["merge_dedups"] = w.stats.get("merge_dedups", 0) + 1
                 continue
+            mech = None
+            mine = t._symbols.get(norm(pre_names[id(s)]))
+            if cnt == 0 and s.is_import and mine is not None and \
+                    not mine.is_import and not mine.is_unresolved:
+                # fact of the two tables: an import of the other table has
+                # the name of a local (non-imported) symbol of this one
+                mech = "merge.import_dropped_on_clash_with_local_symbol"
             raise PostFail("merge_symbol_count_%d" % cnt,
-                           "symbol '%s' (%s) of the other table is "
-                           "represented %d times after merge" % (
-                               pre_names[id(s)], type(s).__name__, cnt))
+                           "symbol '%s' (%s, %s) of the other table is "
+                           "represented %d times after merge%s" % (
+                               pre_names[id(s)], type(s).__name__,
+                               s.interface, cnt,
+                               "; this table has a local %s '%s'" % (
+                                   type(mine).__name__, mine.name)
+                               if mine is not None else ""), mech)
         for s in pre_self + pre_other:
             if s.name != pre_names[id(s)]:
                 w.stats["merge_renames"] = w.stats.get("merge_renames", 0) + 1
@@ -512,7 +524,7 @@ def run_history(hist, part):
             outcome = do_op(w, op)
         except PostFail as pf:
             part.violation({"kind": "postcondition:" + pf.kind,
-                            "mechanism": None,
+                            "mechanism": pf.mechanism,
                             "what": "%s: %s" % (op["op"], pf.what),
                             "history": hist[:step + 1],
                             "dedupe": (op["op"], pf.kind)})
@@ -531,7 +543,8 @@ def run_history(hist, part):
             if post != pre or names_post != names_pre:
                 part.violation({
                     "kind": "table_changed_by_rejected_operation",
-                    "mechanism": None,
+                    "mechanism": "merge.not_atomic" if op["op"] in (
+                        "merge", "merge_skip") else None,
                     "what": "%s raised %s: %s -- but a table changed" % (
                         op["op"], type(raised).__name__, str(raised)[:150]),
                     "history": hist[:step + 1],
